@@ -18,6 +18,7 @@ func checkC08(c *Check) {
 	c.specConstants("C08.1 spec-constants", "openMessageType", "updateMessageType", "notificationMessageType", "keepAliveMessageType", "headerLength", "maxMessageLength", "NOTIF_CODE_MESSAGE_HEADER_ERR", "NOTIF_SUBCODE_CONN_NOT_SYNCHRONIZED", "NOTIF_SUBCODE_BAD_MESSAGE_LEN", "NOTIF_SUBCODE_BAD_MESSAGE_TYPE")
 	c.notificationEncode("C08.3 notification-encode")
 	c.notifSentThenTeardown("C08.2 notification-sent")
+	c.notifInErr("C08.2 received-not-echoed", "C08.2 notification-sent")
 	c.writeSites("C08.3 frames-not-interleaved")
 	c.fsmContracts("C08.2 fsm-effects")
 }
